@@ -64,6 +64,15 @@ theorem C05_float (n : Node) (x : Num) (hx : 0 ≤ x.mag) :
   · refine ⟨(floatStyles n).getLast hne, List.getLast_mem hne, ?_, Or.inr (enough_close x hx _ hlast)⟩
     rw [h, List.getLast_map]
 
+/-- **C05_default_node_spelling** (tie to the source, re-checked against the regenerated constant on every run):
+    a node made from a value at write time, with no token at all (`MCNP_Object._generate_default_node(float, v)`:
+    `Transform._update_values` makes one for every rotation entry the TR input did not hold), is given Python's
+    `str(v)` as its token, or the value itself when that is `None`/a jump. `str` of a float is `repr`, the shortest
+    decimal that reads back as exactly `v` (CPython `float_repr_style = 'short'`, David Gay's algorithm: trusted, not
+    modelled; sampled by unit U-repr of the check), so such a node is written with a token that reads back as the
+    value set. Any other spelling (a `%g`/`:g` format keeps 6 digits) re-opens this obligation. -/
+theorem C05_default_node_spelling : Gen.defaultNodeSpellings = ["default", "str(default)"] := by decide
+
 /-- a node created from scratch: `ValueNode(None, float)` -/
 def newNode : Node :=
   { token := .none, ty := .float, padding := none, neverPad := false, value := none, ogValue := none,
